@@ -268,6 +268,26 @@ func runC18(c *h.Ctx) {
 				c.Violation("a well-formed name key does not decode", map[string]any{"encoding": h.Hex(enc), "err": err.Error()})
 				continue
 			}
+			// the same key parsed from a buffer that continues after the encoding, and from a buffer overwritten afterwards
+			if buf := cat(enc, rnd(c, 7)); true {
+				if nk2, err := type3.UnmarshalEncapKey(buf); err == nil {
+					for i := range buf {
+						buf[i] ^= 0x5a
+					}
+					var st2 type3.RateLimitedTokenRequestState
+					var e2 error
+					pan2, _ := h.Protect(func() {
+						st2, e2 = client.CreateTokenRequest(chal, nonce, rnd(c, 48), id0, &k0.PublicKey, "origin.example", nk2)
+					})
+					c.Count("namekeyid:parsed-from-longer-or-reused-buffer", 1, "")
+					if !pan2 && e2 == nil {
+						w := sha256.Sum256(enc)
+						if !bytes.Equal(st2.Request().NameKeyID, w[:]) || !bytes.Equal(nk2.Marshal(), enc) {
+							c.Violation("type-3 requests carry SHA-256 of the serialized name key (key decoded from a buffer with trailing bytes that was reused afterwards)", map[string]any{"suite": []uint16{s.kem, s.kdf, s.aead}})
+						}
+					}
+				}
+			}
 			args := [][]byte{{id}, u16b(s.kem), pk, u16b(s.kdf), u16b(s.aead)}
 			want := sha256.Sum256(enc)
 			if !bytes.Equal(nk.Marshal(), enc) {
